@@ -1526,6 +1526,39 @@ int32 matrixSslDeleteSessionTicketKey(sslKeys_t *keys, unsigned char name[16])
 
 /******************************************************************************/
 /*
+    The ticket key list of a key set is shared by every session created
+    from it and may be changed at any time by
+    matrixSslLoadSessionTicketKeys / matrixSslDeleteSessionTicketKey.
+    Code outside this file that walks the list (TLS 1.3 tickets) holds
+    the same lock.
+ */
+void matrixSslSessTicketLock(void)
+{
+    psLockMutex(&g_sessTicketLock);
+}
+
+void matrixSslSessTicketUnlock(void)
+{
+    psUnlockMutex(&g_sessTicketLock);
+}
+
+/* Are any session ticket keys loaded right now? */
+int32 matrixSslHaveSessionTicketKeys(sslKeys_t *keys)
+{
+    int32 have;
+
+    if (keys == NULL)
+    {
+        return 0;
+    }
+    psLockMutex(&g_sessTicketLock);
+    have = (keys->sessTickets != NULL);
+    psUnlockMutex(&g_sessTicketLock);
+    return have;
+}
+
+/******************************************************************************/
+/*
     This will be called on ticket decryption if the named key is not
     in the current local list
  */
